@@ -26,6 +26,9 @@ class _Budget:
         self.calls += 1
         if self.left is not None:
             if self.left == 0:
+                if self.flush == "interrupt":
+                    self.left = None
+                    raise KeyboardInterrupt()      # an interruption delivered as an exception: finally blocks run
                 if self.flush:
                     for f in self.open_files:
                         try:
@@ -128,6 +131,10 @@ def _child(fn):
         try:
             fn()
             os._exit(0)
+        except KeyboardInterrupt:
+            import sys
+            sys.stdout.flush()
+            os._exit(18)          # interrupted by an exception: normal unwinding has happened
         except BaseException:
             os._exit(3)
     _, status = os.waitpid(pid, 0)
@@ -154,8 +161,8 @@ def crash_sweep(earlier, rows, cols):
         points = int(open(cf).read())
         new_bytes = open(os.path.join(ref, "data.json"), "rb").read()
         for k in range(points):
-            for flush in (False, True):
-                d = os.path.join(base, f"k{k}{'f' if flush else ''}")
+            for flush in (False, True, "interrupt"):
+                d = os.path.join(base, f"k{k}{'f' if flush is True else 'i' if flush else ''}")
                 shutil.copytree(pre, d)
                 rc = _child(lambda: _save_with_kill(d, rows, cols, k, flush))
                 f = os.path.join(d, "data.json")
